@@ -94,8 +94,9 @@ def judge_c12(d):
 
 
 PROPS["C12"] = {
-    "lean_modules": ["P2.Props.C12", "P2.Props.C12b", "P2.Props.C12c"],
+    "lean_modules": ["P2.Props.C12", "P2.Props.C12b", "P2.Props.C12c", "P2.Props.C12d"],
     "audit_module": "P2.Audit.C12",
+    "extra_audit_modules": ["P2.Audit.C12d"],
     "harness_prop": "c12",
     "profile": "release",
     "judge": judge_c12,
@@ -105,7 +106,7 @@ PROPS["C12"] = {
         "thread schedules: runtime fact, exercised with rayon pools of 1/2/16 threads (partial)",
         "Keccak: Keccak-f[1600] / keccak256 / KeccakHash<N> (hash_no_pad, two_to_one, hash_or_noop, BytesHash::to_vec, the permutation 'onion' with rejection sampling) and batch Merkle trees (batch_merkle_tree.rs, verify_batch_merkle_proof_to_cap) transcribed by hand (P2/Model/Keccak.lean, BatchMerkle.lean); the harness uses the keccak-hash crate (same version as plonky2) for raw Keccak-256 on byte strings",
     ],
-    "level_text": "(Keccak hasher and batch Merkle trees included: theorems C12c for any hasher and embedding to_vec — verifyBatch on one matrix = verifyToCap, batch openings bind rows and siblings or exhibit a collision (EmbedsTwo discharged for sponge hashers and for KeccakHash<N>), completeness for two matrices of different heights) Lean 4 theorems for every tree height, cap height, position and abstract hasher: binding of verification (two accepted openings at one position of one cap entry coincide or exhibit an explicit hash collision), completeness of prove/verify and cap = level-by-level hashing on the model; model tied to MerkleTree::new / prove / verify_merkle_proof_to_cap by correspondence incl. negative requests and panics",
+    "level_text": "(C12d: batch Merkle completeness for ANY number of matrices of strictly decreasing heights above the cap) (Keccak hasher and batch Merkle trees included: theorems C12c for any hasher and embedding to_vec — verifyBatch on one matrix = verifyToCap, batch openings bind rows and siblings or exhibit a collision (EmbedsTwo discharged for sponge hashers and for KeccakHash<N>), completeness for two matrices of different heights) Lean 4 theorems for every tree height, cap height, position and abstract hasher: binding of verification (two accepted openings at one position of one cap entry coincide or exhibit an explicit hash collision), completeness of prove/verify and cap = level-by-level hashing on the model; model tied to MerkleTree::new / prove / verify_merkle_proof_to_cap by correspondence incl. negative requests and panics",
     "level_note": "Trusted: Lean kernel, standard axioms, hand transcription tied by differential correspondence (digest buffer layout, caps, proofs, verdict classes OK/ERR/PANIC). Thread interleavings of the MaybeUninit fill cannot be exhibited by the model (partial).",
     "assumptions": [],
     "rule": "Keccak: every input length 0..300 + block boundaries, KeccakHash<25/32> on widths around the no-op boundary, permutation states incl. rejection-sampling corpus, Keccak trees under 1/2/16 threads with 9 negative classes; batch trees: 23 shapes (1-4 matrices, heights 2^0..2^6) x cap heights x Poseidon/Keccak with 15 negative classes; trees for k=0..6 (thorough 9), every cap height, widths shorter/longer than a digest, all or sampled positions, 8 negative request classes per position; distinct = distinct request lines",
@@ -161,8 +162,9 @@ def judge_c05(d):
 
 
 PROPS["C05"] = {
-    "lean_modules": ["P2.Props.C05", "P2.Props.C05b", "P2.Props.C05c"],
+    "lean_modules": ["P2.Props.C05", "P2.Props.C05b", "P2.Props.C05c", "P2.Props.GL2Inst"],
     "audit_module": "P2.Audit.C05",
+    "extra_audit_modules": ["P2.Audit.GL2Inst"],
     "harness_prop": "c05",
     "profile": "release",
     "judge": judge_c05,
@@ -170,7 +172,7 @@ PROPS["C05"] = {
         "modelled, not verified: fri/verifier.rs, fri/validate_shape.rs, reduction_strategies.rs transcribed by hand (P2/Model/Fri.lean); Poseidon hasher only; batch FRI: batch_fri/verifier.rs, validate_batch_fri_proof_shape, verify_batch_merkle_proof_to_cap transcribed in P2/Model/BatchFri.lean",
         "NOT proved (cryptographic idealisation): proximity soundness of the FRI query phase; the theorems cover decision logic and the algebraic identities each check relies on",
     ],
-    "level_text": "(incl. batch FRI: BatchFri.verifyBatch with the per-layer mix-in of lower-degree groups, batch Merkle openings, shape validation; theorems: acceptance decomposition, exact mix-in rule per layer, and verifyBatch on one instance = Fri.verify when no oracle is salted) Lean 4 model of the complete FRI verifier (shape, PoW, initial Merkle openings, combination of openings, per-layer interpolation/consistency/Merkle checks, final polynomial) with theorems on its decision logic and the arity schedule; tied to verify_fri_proof by exact verdict-and-stage agreement on honest opening proofs and on a deviation catalogue with challenges held fixed",
+    "level_text": "(GL2Inst: computeEvaluation_fold — the model's Fri.computeEvaluation on GL2, bit reversal and coset start included, returns the beta-fold of the coset polynomials; combine_soundness at GL2) (incl. batch FRI: BatchFri.verifyBatch with the per-layer mix-in of lower-degree groups, batch Merkle openings, shape validation; theorems: acceptance decomposition, exact mix-in rule per layer, and verifyBatch on one instance = Fri.verify when no oracle is salted) Lean 4 model of the complete FRI verifier (shape, PoW, initial Merkle openings, combination of openings, per-layer interpolation/consistency/Merkle checks, final polynomial) with theorems on its decision logic and the arity schedule; tied to verify_fri_proof by exact verdict-and-stage agreement on honest opening proofs and on a deviation catalogue with challenges held fixed",
     "level_note": "Trusted: Lean kernel, standard axioms, hand transcription tied by correspondence (exact agreement of two deterministic verifiers, no probabilistic slack). FRI proximity soundness is assumed, not proved.",
     "assumptions": ["FRI proximity soundness", "collision resistance of Poseidon appears only as an explicit disjunct in C12's theorems"],
     "rule": "batch FRI: 1-4 strictly decreasing degree groups x Fixed/ConstantArity schedules (inner / last-exact / no-reduction joins) x per-group and batch-specific deviations (shifted num_polys, swapped instances/openings/degree bits, dropped instance, wrong degree) + single-degree catalogue; honest opening proofs for random oracle shapes (1-4 oracles, 1-6 polys, blinding), degrees 2^1..2^7 (thorough 2^9), rate 1-4, cap 0-4, Fixed/ConstantArity/MinSize strategies, 1-5 queries (thorough 12) x 17 deviation classes with challenges fixed; ConstantArityBits schedule for all small parameters; distinct = distinct request lines",
@@ -237,8 +239,9 @@ def judge_c07(d):
 
 
 PROPS["C07"] = {
-    "lean_modules": ["P2.Props.C07", "P2.Props.C07b"],
+    "lean_modules": ["P2.Props.C07", "P2.Props.C07b", "P2.Props.GL2Inst"],
     "audit_module": "P2.Audit.C07",
+    "extra_audit_modules": ["P2.Audit.GL2Inst"],
     "harness_prop": "c07",
     "profile": "release",
     "judge": judge_c07,
@@ -246,7 +249,7 @@ PROPS["C07"] = {
         "modelled, not verified: eval_unfiltered and the generators of all 16 gates of plonky2/src/gates transcribed by hand (P2/Model/Gates.lean), generic over the field so that the same model answers base-field and extension-field evaluation",
         "packed evaluators only at the build's default packing width (partial)",
     ],
-    "level_text": "Lean 4 model of every built-in gate (constraints, declared counts/degrees, generators) with theorems for all parameter values; tied to the four Rust evaluators (base batch 1/2/33, extension, in-circuit) and to the gates' own generators by exact equality on random, boundary and generator-filled rows for a sweep of all parameters; the property's own oracles run on the implementation: generated rows satisfy all constraints, every generator-written wire replaced by v+1/0/random is detected, constraint counts and low degree as declared",
+    "level_text": "(GL2Inst: arithmetic_sat_iff, baseSum_pinned_sat, exponentiation_semantics instantiated at the model's own base field GL for GateKind.evalUnfiltered) Lean 4 model of every built-in gate (constraints, declared counts/degrees, generators) with theorems for all parameter values; tied to the four Rust evaluators (base batch 1/2/33, extension, in-circuit) and to the gates' own generators by exact equality on random, boundary and generator-filled rows for a sweep of all parameters; the property's own oracles run on the implementation: generated rows satisfy all constraints, every generator-written wire replaced by v+1/0/random is detected, constraint counts and low degree as declared",
     "level_note": "Trusted: Lean kernel, standard axioms, hand transcription tied by correspondence. Gadget contracts respected when generating rows (boolean power bits, index < 2^bits, sum < B^limbs, shift != 0). Lookup gates have no constraints of their own (decided under C08).",
     "assumptions": [],
     "rule": "all 16 gate types x parameter sweep x (random, boundary, generated, perturbed) rows x evaluators; distinct = distinct request lines",
@@ -497,29 +500,30 @@ def judge_stark(d):
 
 
 PROPS["C09"] = {
-    "lean_modules": ["P2.Props.C09", "P2.Props.C09b", "P2.Props.C09c"],
+    "lean_modules": ["P2.Props.C09", "P2.Props.C09b", "P2.Props.C09c", "P2.Props.C09d"],
     "audit_module": "P2.Audit.C09",
-    "extra_audit_modules": ["P2.Audit.GL2Field"],
+    "extra_audit_modules": ["P2.Audit.GL2Field", "P2.Audit.C09d"],
         "harness_prop": "c09",
     "profile": "release",
     "judge": judge_stark,
     "trusted_base": STARK_TB,
-    "level_text": "(instantiated at the model's own GL2 via GL2Field: consumer_all_zero_of_many_base_alphas, air_constraints_zero_of_many_alphas, evalL0LLast_ok_spec for Stark.evalL0LLast itself) Lean 4 model of the complete STARK verifier (degree recovery, FRI parameters for all three reduction strategies, full challenge derivation incl. both transcript padding modes, L_0/L_last, constraint consumer, quotient identity, FRI instance, FRI verifier) and of what 'the trace satisfies the AIR' means row by row; theorems: Stark.verify accepts IFF public-input count, degree recovery, every shape fact (validateShape_accept_iff: all opening-list lengths, quotient commitment AND quotient openings present iff the AIR has quotient polynomials, ctl_zs_first present iff CTLs, auxiliary data iff lookups/CTLs), the quotient identity for every chunk and FRI acceptance hold (verifyWithChallenges_accept_iff / verify_accept_iff); the constraint consumer is one Horner accumulator per challenge = sum c_i*alpha^(n-1-i) and over a field it vanishes for more than n-1 alphas only if every constraint value is zero (C09b); L_0 / L_last / z_last are the Lagrange selectors of the first and last row (C09b); satisfied <-> every active constraint is zero on every row (transitions skip the wrap-around row); transcript order and injectivity for the STARK challenger incl. the inside of fri_challenges (C09c: trace cap before lookup challenges, auxiliary cap before alphas, quotient cap before zeta, openings before FRI alpha, each commit cap before its beta, final polynomial and pow witness before the pow response and the query indices); no-panic: after shape validation no panic point is reachable for AIRs without lookups (…_partial), the panics BEFORE shape validation are characterised exactly (recoverDegreeBits_error_iff = known finding F-C18-3a); tied to starky by exact agreement of verdicts and of every challenge on honest proofs, on proofs of corrupted traces, on per-element tampering / list surgery / option toggling of accepted proofs and on forged proofs (dishonest prover without quotient commitment), plus the property's oracle on the implementation: satisfying trace => proof accepted, violating trace (single-cell corruption in first / last / interior / wrap-around rows, wrong public inputs) => no accepted proof, at standard strength every tampered proof rejected",
+    "level_text": "(C09d: the STARK verifier model NEVER panics after shape validation, lookups and cross-table lookups included, for AIRs whose lookup declarations satisfy LookupsOK (degree != 1, at most 2 columns per helper beyond degree 3, no more columns than filters) — the three remaining panics are loud refusals of the AIR definition and are exhibited; the lookup_challenge_set unwrap is tied to getChallenges; explicit panic surface of verify_stark_proof before shape validation) (instantiated at the model's own GL2 via GL2Field: consumer_all_zero_of_many_base_alphas, air_constraints_zero_of_many_alphas, evalL0LLast_ok_spec for Stark.evalL0LLast itself) Lean 4 model of the complete STARK verifier (degree recovery, FRI parameters for all three reduction strategies, full challenge derivation incl. both transcript padding modes, L_0/L_last, constraint consumer, quotient identity, FRI instance, FRI verifier) and of what 'the trace satisfies the AIR' means row by row; theorems: Stark.verify accepts IFF public-input count, degree recovery, every shape fact (validateShape_accept_iff: all opening-list lengths, quotient commitment AND quotient openings present iff the AIR has quotient polynomials, ctl_zs_first present iff CTLs, auxiliary data iff lookups/CTLs), the quotient identity for every chunk and FRI acceptance hold (verifyWithChallenges_accept_iff / verify_accept_iff); the constraint consumer is one Horner accumulator per challenge = sum c_i*alpha^(n-1-i) and over a field it vanishes for more than n-1 alphas only if every constraint value is zero (C09b); L_0 / L_last / z_last are the Lagrange selectors of the first and last row (C09b); satisfied <-> every active constraint is zero on every row (transitions skip the wrap-around row); transcript order and injectivity for the STARK challenger incl. the inside of fri_challenges (C09c: trace cap before lookup challenges, auxiliary cap before alphas, quotient cap before zeta, openings before FRI alpha, each commit cap before its beta, final polynomial and pow witness before the pow response and the query indices); no-panic: after shape validation no panic point is reachable for AIRs without lookups (…_partial), the panics BEFORE shape validation are characterised exactly (recoverDegreeBits_error_iff = known finding F-C18-3a); tied to starky by exact agreement of verdicts and of every challenge on honest proofs, on proofs of corrupted traces, on per-element tampering / list surgery / option toggling of accepted proofs and on forged proofs (dishonest prover without quotient commitment), plus the property's oracle on the implementation: satisfying trace => proof accepted, violating trace (single-cell corruption in first / last / interior / wrap-around rows, wrong public inputs) => no accepted proof, at standard strength every tampered proof rejected",
     "level_note": "Found and repaired in /repo with this machinery: F-C09-2 (forged proofs accepted: missing quotient commitment allowed), F-C09-1 (ctl_zs_first None/Some([]) malleability), F-C09-3 (Fixed schedule longer than the degree: honest proof rejected). The prover is not modelled (implementation oracle only).",
     "assumptions": ["FRI proximity soundness", "random oracle", "collision resistance"],
     "rule": "AIRs: fibonacci / permutation / unconstrained + generated (1..8 columns, degree 0..3, with/without public inputs, first/last/transition/unconditional constraints) x trace lengths 2^1..2^8 x StarkConfig (rate 1..3, cap height 0..4, grinding, 2..6 queries, Fixed / ConstantArityBits / MinSize, padded transcripts) + one standard-strength instance; corruptions: 5 row classes x columns, wrong public inputs, row exchange; tampering: every class of JSON leaf, 3 surgeries per array class, option toggles, public inputs, other transcript mode; forgery per instance; distinct = distinct request lines",
 }
 
 PROPS["C10"] = {
-    "lean_modules": ["P2.Props.C10", "P2.Props.C10b", "P2.Props.C09"],
+    "lean_modules": ["P2.Props.C10", "P2.Props.C10b", "P2.Props.C09", "P2.Props.C09d", "P2.Props.GL2Inst"],
     "audit_module": "P2.Audit.C10",
+    "extra_audit_modules": ["P2.Audit.C09d", "P2.Audit.GL2Inst"],
     "harness_prop": "c10",
     "profile": "release",
     "judge": judge_stark,
     "trusted_base": STARK_TB + [
         "multi-table glue: starky ships no multi-table verifier, so harness/src/c10.rs mod ctl composes get_ctl_data / prove_with_commitment / CtlCheckVars::from_proof / verify_stark_proof_with_challenges / verify_cross_table_lookups the way the documented consumer does, and Stark.verifyMulti mirrors that glue",
     ],
-    "level_text": "Lean 4 model of the STARK verifier with column lookups (helper columns, Z running sum, first-row and wrap-around constraints) and cross-table lookups (CtlCheckVars::from_proof, eval_cross_table_lookup_checks, verify_cross_table_lookups, multi-table verifier) and of the MEANING of a lookup / cross-table lookup on traces as weighted multisets (Air.firstBadLookup, CtlSpec.holds); theorems: Air.firstBadLookup = none IFF for every value v the filter-weighted number of looking occurrences equals the frequency-weighted number of table occurrences (firstBadLookup_none_iff_sums; weights in GL, i.e. mod p), CtlSpec.holds IFF the weighted multisets of tuples agree (holds_iff_sums); logUp algebra over any field (C10b): the helper-column constraint pins h = f1/(x+a) + f2/(y+a), the running-sum constraint on a cyclic domain telescopes to sum(helpers - freq/(t+a)) = 0, tied to the model's evalHelperColumns / evalLookups terms; plus the C09 verifier theorems (acceptance decomposition, shape facts); tied to starky by exact agreement of verdicts/challenges on honest and tampered single- and multi-table proofs and of the multiset semantics with the harness's evaluator; implementation oracle: lookups hold on the trace => proof accepted, a single missing / extra / altered value on the looking side, the table, the frequencies, a filter, a helper or running-sum opening => no accepted proof",
+    "level_text": "(GL2Inst: helper_pair_iff, running_sum_telescopes, logup_running_sum instantiated at the model's own GL2; C09d: evalLookups / evalCtlChecks return and keep the accumulator count under LookupsOK / CtlVarsOK) Lean 4 model of the STARK verifier with column lookups (helper columns, Z running sum, first-row and wrap-around constraints) and cross-table lookups (CtlCheckVars::from_proof, eval_cross_table_lookup_checks, verify_cross_table_lookups, multi-table verifier) and of the MEANING of a lookup / cross-table lookup on traces as weighted multisets (Air.firstBadLookup, CtlSpec.holds); theorems: Air.firstBadLookup = none IFF for every value v the filter-weighted number of looking occurrences equals the frequency-weighted number of table occurrences (firstBadLookup_none_iff_sums; weights in GL, i.e. mod p), CtlSpec.holds IFF the weighted multisets of tuples agree (holds_iff_sums); logUp algebra over any field (C10b): the helper-column constraint pins h = f1/(x+a) + f2/(y+a), the running-sum constraint on a cyclic domain telescopes to sum(helpers - freq/(t+a)) = 0, tied to the model's evalHelperColumns / evalLookups terms; plus the C09 verifier theorems (acceptance decomposition, shape facts); tied to starky by exact agreement of verdicts/challenges on honest and tampered single- and multi-table proofs and of the multiset semantics with the harness's evaluator; implementation oracle: lookups hold on the trace => proof accepted, a single missing / extra / altered value on the looking side, the table, the frequencies, a filter, a helper or running-sum opening => no accepted proof",
     "level_note": "Found with this machinery: F-C10-2 (next-row terms of table/frequencies columns ignored by the constraints: honest proof rejected; repaired in /repo), F-C10-1 (lookups with constraint_degree 0 are never enforced; known finding, not a small repair).",
     "assumptions": ["FRI proximity soundness", "random oracle", "collision resistance", "logUp soundness over the challenge space (Schwartz-Zippel)"],
     "rule": "column lookups: 1..4 looking columns, single / linear-combination / next-row / combined column forms, 5 filter kinds, degree 2 and 3, corruptions of looking side, table, frequencies, filters, noise cells; cross-table lookups: 2- and 3-table systems, a table looking twice, linear and next-row columns, product filters, 6 corruption kinds on either side, tampering of auxiliary cap/openings; distinct = distinct request lines",
